@@ -18,7 +18,7 @@ TECHNIQUE = ('explicit-state breadth-first search over edit histories on the rea
              'on kind+indent+source+positioned dump), invariant checked in every state against CPython ast.parse')
 LEVEL_TEXT = ('all edit histories up to the stated depth over a finite operation alphabet (targets enumerated from the '
               'CPython parse through the ASDL grammar x code alphabet x 3 code forms x option settings) are executed on the '
-              'real objects from 56 start programs, and the closure of programs under a shrinking alphabet is explored to its fixpoint; the invariant is evaluated in every reached state')
+              'real objects from 62 start programs (par / unpar operations, slices of identifier lists and multi-line slice codes with uneven indentation included), and the closure of programs under a shrinking alphabet is explored to its fixpoint; the invariant is evaluated in every reached state')
 LEVEL_NOTE = 'trusted: CPython ast.parse; bounded to the programs/alphabet/depth in BOUNDS; norm=True, pars auto/True only'
 RULE = ('bfs: states are histories replayed on fresh trees, canonical form (kind, indent, src, dump+positions); '
         'transitions = operation instances applied; non-trivial = distinct result states whose source differs from the '
